@@ -48,6 +48,8 @@ pub struct Shape {
     pub proxy: bool,
     /// (spawner index, attempt) whose pid registration is made to fail
     pub pidfault: Option<(usize, usize)>,
+    /// per spawner: the guard is dropped without a terminal event (failed start / cancelled start) instead of finish(evt)
+    pub noevt: Vec<bool>,
 }
 
 const KEEP: &[&str] = &[
@@ -96,7 +98,11 @@ pub fn one_run(shape: &Shape, ex: &mut Explorer) -> (Vec<Value>, Value, bool) {
                             if sh.pre[i] {
                                 det.set_status(ActorStatus::Stopping);
                             }
-                            det.finish(SupervisionEvent::ActorTerminated(cell.clone(), None, None));
+                            if sh.noevt[i] {
+                                det.drop_guard();
+                            } else {
+                                det.finish(SupervisionEvent::ActorTerminated(cell.clone(), None, None));
+                            }
                             verif::block_on_mini(cell.wait(None)).expect("untimed wait");
                             verif::emit("obs.waited", cell.get_id().pid(), 0);
                             det.drop_ports();
@@ -253,17 +259,20 @@ pub fn one_run(shape: &Shape, ex: &mut Explorer) -> (Vec<Value>, Value, bool) {
 pub fn shapes(tier: &str) -> Vec<Shape> {
     let mut v = vec![
         // three concurrent spawns of one name, one lookup thread
-        Shape { spawners: 3, att: 1, pre: vec![false, true, false], lookers: 1, looks: 2, proxy: false, pidfault: None },
+        Shape { spawners: 3, att: 1, pre: vec![false, true, false], lookers: 1, looks: 2, proxy: false, pidfault: None, noevt: vec![false; 3] },
         // re-spawns: the loser retries after the holder exited (graceful exit: two set_status(Stopping) calls)
-        Shape { spawners: 2, att: 2, pre: vec![true, true], lookers: 1, looks: 3, proxy: false, pidfault: None },
+        Shape { spawners: 2, att: 2, pre: vec![true, true], lookers: 1, looks: 3, proxy: false, pidfault: None, noevt: vec![false; 3] },
         // failed pid registration rolls the name back while a competitor spawns
-        Shape { spawners: 2, att: 2, pre: vec![false, true], lookers: 1, looks: 2, proxy: false, pidfault: Some((0, 1)) },
+        Shape { spawners: 2, att: 2, pre: vec![false, true], lookers: 1, looks: 2, proxy: false, pidfault: Some((0, 1)), noevt: vec![false; 3] },
         // a remote proxy carrying the same name exits next to a local holder
-        Shape { spawners: 2, att: 1, pre: vec![true, false], lookers: 1, looks: 2, proxy: true, pidfault: None },
+        Shape { spawners: 2, att: 1, pre: vec![true, false], lookers: 1, looks: 2, proxy: true, pidfault: None, noevt: vec![false; 3] },
+        // failed / cancelled starts (the guard goes without a terminal event) racing lookups and re-spawns
+        Shape { spawners: 2, att: 2, pre: vec![false, false], lookers: 1, looks: 4, proxy: false, pidfault: None, noevt: vec![true, true, false] },
+        Shape { spawners: 1, att: 1, pre: vec![false], lookers: 2, looks: 3, proxy: false, pidfault: None, noevt: vec![true, false, false] },
     ];
     if tier == "thorough" {
-        v.push(Shape { spawners: 3, att: 2, pre: vec![true, false, true], lookers: 2, looks: 3, proxy: false, pidfault: Some((1, 1)) });
-        v.push(Shape { spawners: 3, att: 2, pre: vec![true, true, false], lookers: 1, looks: 3, proxy: true, pidfault: None });
+        v.push(Shape { spawners: 3, att: 2, pre: vec![true, false, true], lookers: 2, looks: 3, proxy: false, pidfault: Some((1, 1)), noevt: vec![false; 3] });
+        v.push(Shape { spawners: 3, att: 2, pre: vec![true, true, false], lookers: 1, looks: 3, proxy: true, pidfault: None, noevt: vec![false; 3] });
     }
     v
 }
